@@ -60,6 +60,7 @@ impl Check for C04 {
                 for cut in 0..=data.len() {
                     c04_case(ctx, &p, &data[..cut], &data[cut..]);
                 }
+                unencodable_header_case(ctx, "MAC_structure", &data, &data);
             }
         }
     }
